@@ -73,6 +73,9 @@ var c18Scenarios = []c18Scenario{
 	{name: "tie-first-3", n: 3, ties: true, query: `first_over_time({} | label_format v="{{ __line__ | trimPrefix \"m\" | trunc 1 }}" | unwrap v [10s]) by (container_state)`, params: logqlengine.EvalParams{Start: otelstorage.Timestamp(5 * c18sec), End: otelstorage.Timestamp(5 * c18sec), Limit: -1}},
 	{name: "log-samemsg-2", n: 2, same: true, query: `{}`, params: c18Log()},
 	{name: "log-dropmsg-3", n: 3, query: `{} | drop msg, container_id`, params: c18Log()},
+	// the label the container column is taken from is gone, or renamed
+	{name: "log-dropcontainer-3", n: 3, query: `{} | drop container`, params: c18Log()},
+	{name: "log-renamecontainer-2", n: 2, query: `{} | label_format ctr=container | drop container_name`, params: c18Log()},
 	{name: "count-samemsg-2", n: 2, same: true, query: `count_over_time({}[4s])`, params: c18Range()},
 	{name: "max-samemsg-2", n: 2, same: true, query: `max(count_over_time({}[4s])) by (container, msg)`, params: c18Range()},
 	// one series is NaN: whatever max/min make of it, they make the same of it in every arrival order
